@@ -5,11 +5,9 @@
     model's on a clause the checker tests is a violation of the property. *)
 From Coq Require Import ZArith List Bool Lia.
 From Low Require Import Lib.MachInt Lib.Bits Lib.BitSeq Model.TailBitmap
-  Spec.TailBitmapSpec Spec.TailBitmapInv Proofs.TailBitmapProofs Proofs.TailBitmapHist Run.C15.
+  Spec.TailBitmapSpec Spec.TailBitmapInv Spec.TailBitmapObs Proofs.TailBitmapProofs Proofs.TailBitmapHist Run.C15.
 Import ListNotations.
 Open Scope Z_scope.
-
-Definition memP (H : hist) (j : Z) : Prop := memH H j = true.
 
 Lemma memH_cons a b H j : memH ((a, b) :: H) j = ((a <=? j) && (j <? b)) || memH H j.
 Proof. reflexivity. Qed.
@@ -26,35 +24,35 @@ Ltac or_lia := split; (intros [A|A]; [left; exact A|right; lia]).
 
 (** ** one protocol call keeps the invariant *)
 
-Lemma pstep_Inv o H s p s' r : Inv o (memP H) s -> pstep s p = Some (s', r) ->
-  Inv o (memP (abs_step H p)) s' /\ Mono (memP (abs_step H p)) s s'.
+Lemma pstep_Inv st o H s p s' r : Inv st o (memP H) s -> pstep s p = Some (s', r) ->
+  Inv st o (memP (abs_step H p)) s' /\ Mono (memP (abs_step H p)) s s'.
 Proof.
   intros I E. destruct p as [idx| |j|j|f t|f t]; cbn [pstep abs_step] in *.
-  - destruct (step_Inv o _ s _ s' r I E) as [I1 M1]. cbn [op_sets] in *.
+  - destruct (step_Inv st o _ s _ s' r I E) as [I1 M1]. cbn [op_sets] in *.
     assert (Hiff : forall j, (memP H j \/ j = idx) <-> memP ((idx, idx + 1) :: H) j).
     { intros j. rewrite memP_cons. or_lia. }
     split; [eapply Inv_ext; [exact Hiff|exact I1]|].
     constructor; try apply M1. intros j Hj. apply Hiff. apply (mo_passed _ _ _ M1). exact Hj.
-  - destruct (step_Inv o _ s _ s' r I E) as [I1 M1]. cbn [op_sets] in *.
+  - destruct (step_Inv st o _ s _ s' r I E) as [I1 M1]. cbn [op_sets] in *.
     assert (Hiff : forall j, (memP H j \/ False) <-> memP H j) by (intros; tauto).
     split; [eapply Inv_ext; [exact Hiff|exact I1]|].
     constructor; try apply M1. intros j Hj. apply Hiff. apply (mo_passed _ _ _ M1). exact Hj.
-  - destruct (step_Inv o _ s _ s' r I E) as [I1 M1]. cbn [op_sets] in *.
+  - destruct (step_Inv st o _ s _ s' r I E) as [I1 M1]. cbn [op_sets] in *.
     assert (Hiff : forall j, (memP H j \/ False) <-> memP H j) by (intros; tauto).
     split; [eapply Inv_ext; [exact Hiff|exact I1]|].
     constructor; try apply M1. intros k Hk. apply Hiff. apply (mo_passed _ _ _ M1). exact Hk.
-  - destruct (step_Inv o _ s _ s' r I E) as [I1 M1]. cbn [op_sets] in *.
+  - destruct (step_Inv st o _ s _ s' r I E) as [I1 M1]. cbn [op_sets] in *.
     assert (Hiff : forall j, (memP H j \/ False) <-> memP H j) by (intros; tauto).
     split; [eapply Inv_ext; [exact Hiff|exact I1]|].
     constructor; try apply M1. intros k Hk. apply Hiff. apply (mo_passed _ _ _ M1). exact Hk.
-  - destruct (set_up_Inv o _ (Z.to_nat (t - f)) s f I) as (s1 & E1 & I1 & M1).
+  - destruct (set_up_Inv st o _ (Z.to_nat (t - f)) s f I) as (s1 & E1 & I1 & M1).
     rewrite E1 in E. inversion E; subst s' r.
     assert (Hiff : forall j, (memP H j \/ f <= j < f + Z.of_nat (Z.to_nat (t - f))) <->
                              memP ((f, t) :: H) j).
     { intros j. rewrite memP_cons. or_lia. }
     split; [eapply Inv_ext; [exact Hiff|exact I1]|].
     constructor; try apply M1. intros j Hj. apply Hiff. apply (mo_passed _ _ _ M1). exact Hj.
-  - destruct (set_down_Inv o _ (Z.to_nat (t - f)) s (t - 1) I) as (s1 & E1 & I1 & M1).
+  - destruct (set_down_Inv st o _ (Z.to_nat (t - f)) s (t - 1) I) as (s1 & E1 & I1 & M1).
     rewrite E1 in E. inversion E; subst s' r.
     assert (Hiff : forall j, (memP H j \/ t - 1 - Z.of_nat (Z.to_nat (t - f)) < j <= t - 1) <->
                              memP ((f, t) :: H) j).
@@ -95,7 +93,7 @@ Proof.
   rewrite IH, Z.eqb_refl. reflexivity.
 Qed.
 
-Lemma stored_ok_Inv o H s : Inv o (memP H) s -> stored_ok o H (Offset s) (Words s) = true.
+Lemma stored_ok_Inv st o H s : Inv st o (memP H) s -> stored_ok o H (Offset s) (Words s) = true.
 Proof.
   intros I. unfold stored_ok.
   assert (E : flat (Words s) =
@@ -103,23 +101,31 @@ Proof.
   { apply nth_ext with (d := false) (d' := false).
     - rewrite map_length, zrange_length, flat_length. reflexivity.
     - intros n Hn. rewrite flat_length in Hn. rewrite nth_map_zrange by exact Hn.
-      pose proof (Inv_TInv _ _ _ I) as T.
+      pose proof (Inv_TInvW _ _ _ _ I) as T.
       assert (R : Offset s <= Offset s + Z.of_nat n < tb_end (Offset s) (Words s)).
       { unfold tb_end, zlen. lia. }
-      pose proof (ti_bits _ _ _ _ T _ R) as B.
+      pose proof (tw_bits _ _ _ _ T _ R) as B.
       replace (Offset s + Z.of_nat n - Offset s) with (Z.of_nat n) in B by lia.
       unfold bitz in B. rewrite Nat2Z.id in B.
       apply eq_true_iff_eq. rewrite B, member_iff.
-      pose proof (inv_ge _ _ _ I). split; [tauto|]. intros [A|A]; [lia|exact A]. }
+      pose proof (inv_ge _ _ _ _ I). split; [tauto|]. intros [A|A]; [lia|exact A]. }
   rewrite <- E. apply bools_eqb_refl.
 Qed.
 
-Lemma head_check_Inv o P s : Inv o P s ->
-  match Words s with w :: _ => negb (w =? all_ones_word) | [] => true end = true.
+Lemma head_okb_iff ws : head_okb ws = true <-> head_ok ws.
 Proof.
-  intros I. destruct (Words s) as [|w t] eqn:E; [reflexivity|].
-  pose proof (inv_head _ _ _ I w t E) as Hne. unfold allOnes in Hne. unfold all_ones_word.
-  destruct (Z.eqb_spec w (2 ^ 64 - 1)); [contradiction|reflexivity].
+  unfold head_okb, head_ok, all_ones_word, allOnes. destruct ws as [|w t].
+  - split; [intros _ x t E; discriminate|reflexivity].
+  - rewrite negb_true_iff, Z.eqb_neq. split.
+    + intros Hne x t' E. inversion E; subst. exact Hne.
+    + intros Hh. apply (Hh w t eq_refl).
+Qed.
+
+Lemma head_check_Inv (b : bool) o P s : Inv (b = true) o P s ->
+  negb b || head_okb (Words s) = true.
+Proof.
+  intros I. destruct b; cbn [negb orb]; [|reflexivity].
+  apply head_okb_iff. apply (inv_head _ _ _ _ I eq_refl).
 Qed.
 
 Lemma passed_check o H s s' : Mono (memP H) s s' ->
@@ -142,32 +148,34 @@ Qed.
 Lemma if_same (c : bool) : (if c then true else true) = true.
 Proof. destruct c; reflexivity. Qed.
 
-Lemma check_step_ok o H s p s' r : Inv o (memP H) s -> pstep s p = Some (s', r) ->
-  check_step o (Offset s, Words s) (abs_step H p) p (Offset s', Words s', r) = true.
+Lemma check_step_gen_ok (st : Prop) (b : bool) o H s p s' r :
+  Inv st o (memP H) s -> Inv (b = true) o (memP (abs_step H p)) s' ->
+  pstep s p = Some (s', r) ->
+  check_step_gen b o (Offset s, Words s) (abs_step H p) p (Offset s', Words s', r) = true.
 Proof.
-  intros I E. destruct (pstep_Inv o H s p s' r I E) as [I' M].
+  intros I I' E. destruct (pstep_Inv st o H s p s' r I E) as [_ M].
   pose proof (mo_end _ _ _ M) as Hend. unfold end_of, tb_end in Hend.
-  unfold check_step. cbv zeta.
-  rewrite (proj2 (Z.eqb_eq _ _) (inv_align _ _ _ I')).
+  unfold check_step_gen. cbv zeta.
+  rewrite (proj2 (Z.eqb_eq _ _) (inv_align _ _ _ _ I')).
   rewrite (proj2 (Z.leb_le _ _) (mo_off _ _ _ M)).
   rewrite (passed_check o _ s s' M).
-  rewrite (head_check_Inv o _ s' I').
+  rewrite (head_check_Inv b o _ s' I').
   rewrite (proj2 (Z.leb_le _ _) Hend).
-  rewrite (stored_ok_Inv o _ s' I'), if_same.
+  rewrite (stored_ok_Inv (b = true) o _ s' I'), if_same.
   cbn [andb].
-  pose proof (wi_end _ _ _ (inv_w _ _ _ I')) as We.
+  pose proof (wi_end _ _ _ (inv_w _ _ _ _ I')) as We.
   destruct p as [idx| |j|j|f t|f t]; cbn [pstep abs_step step] in *.
   - destruct (Set_ s idx); [|discriminate]. inversion E; subst. rewrite Z.eqb_refl, andb_true_r.
     apply Z.ltb_lt. apply We. apply memP_cons. right. lia.
   - inversion E; subst. rewrite Z.eqb_refl, andb_true_r. apply Z.eqb_eq.
-    destruct (Inv_Compact o _ s I) as (_ & _ & M2 & _). unfold end_of, tb_end in M2. exact M2.
+    destruct (Inv_Compact st o _ s I) as (_ & _ & M2 & _). unfold end_of, tb_end in M2. exact M2.
   - destruct (Get s j) as [v|] eqn:G; [|discriminate]. inversion E; subst s' r.
     assert (Hlt : j < end_of s) by (apply probe_in_range; left; congruence).
-    destruct (Get_spec o _ s j (member o H j) I Hlt (member_iff o H j)) as [_ G'].
+    destruct (Get_spec st o _ s j (member o H j) I Hlt (member_iff o H j)) as [_ G'].
     rewrite G in G'. inversion G'. unfold spec_Get. apply Z.eqb_refl.
   - destruct (Get1 s j) as [v|] eqn:G; [|discriminate]. inversion E; subst s' r.
     assert (Hlt : j < end_of s) by (apply probe_in_range; right; congruence).
-    destruct (Get_spec o _ s j (member o H j) I Hlt (member_iff o H j)) as [G' _].
+    destruct (Get_spec st o _ s j (member o H j) I Hlt (member_iff o H j)) as [G' _].
     rewrite G in G'. inversion G'. unfold spec_Get1. apply Z.eqb_refl.
   - destruct (set_up (Z.to_nat (t - f)) s f); [|discriminate]. inversion E; subst.
     rewrite Z.eqb_refl, andb_true_r. apply orb_true_iff.
@@ -181,9 +189,16 @@ Proof.
     apply We. apply memP_cons. right. lia.
 Qed.
 
+Lemma check_step_ok o H s p s' r : Inv (true = true) o (memP H) s -> pstep s p = Some (s', r) ->
+  check_step o (Offset s, Words s) (abs_step H p) p (Offset s', Words s', r) = true.
+Proof.
+  intros I E. destruct (pstep_Inv _ o H s p s' r I E) as [I' _].
+  apply (check_step_gen_ok _ true o H s p s' r I I' E).
+Qed.
+
 (** ** whole protocol histories *)
 
-Lemma run_proto_ok o : forall ps H s l, Inv o (memP H) s -> run_proto s ps = OOk l ->
+Lemma run_proto_ok o : forall ps H s l, Inv (true = true) o (memP H) s -> run_proto s ps = OOk l ->
   check_run o (Offset s, Words s) H ps l = true.
 Proof.
   induction ps as [|p t IH]; intros H s l I E; cbn [run_proto] in E.
@@ -193,7 +208,7 @@ Proof.
     destruct (run_proto s1 t) as [| |l1] eqn:E2; try discriminate.
     inversion E; subst l. cbn [check_run fst snd].
     rewrite (check_step_ok o H s p s1 r I E1). cbn [andb].
-    destruct (pstep_Inv o H s p s1 r I E1) as [I1 _].
+    destruct (pstep_Inv _ o H s p s1 r I E1) as [I1 _].
     apply (IH _ _ _ I1 E2).
 Qed.
 
@@ -206,8 +221,8 @@ Proof.
   unfold model_history, check_history, offset_in_domain. intros E.
   destruct ((0 <=? o) && (o <=? BIG) && (o mod 64 =? 0)) eqn:D; [|discriminate].
   apply andb_true_iff in D. destruct D as [_ D]. apply Z.eqb_eq in D.
-  assert (I : Inv o (memP []) (NewTailBitmap o)).
-  { eapply Inv_ext; [|exact (Inv_New o D)]. intros j. rewrite memP_nil. tauto. }
+  assert (I : Inv (true = true) o (memP []) (NewTailBitmap o)).
+  { eapply Inv_ext; [|exact (Inv_New _ o D)]. intros j. rewrite memP_nil. tauto. }
   exact (run_proto_ok o ps [] _ l I E).
 Qed.
 
@@ -226,7 +241,7 @@ Fixpoint prun (s : tb) (ps : list pop) : option (list (Z * list Z * Z)) :=
       end
   end.
 
-Lemma prun_ok o : forall ps H s l, Inv o (memP H) s -> prun s ps = Some l ->
+Lemma prun_ok o : forall ps H s l, Inv (true = true) o (memP H) s -> prun s ps = Some l ->
   check_run o (Offset s, Words s) H ps l = true.
 Proof.
   induction ps as [|p t IH]; intros H s l I E; cbn [prun] in E.
@@ -235,7 +250,7 @@ Proof.
     destruct (prun s1 t) as [l1|] eqn:E2; [|discriminate].
     inversion E; subst l. cbn [check_run fst snd].
     rewrite (check_step_ok o H s p s1 r I E1). cbn [andb].
-    destruct (pstep_Inv o H s p s1 r I E1) as [I1 _].
+    destruct (pstep_Inv _ o H s p s1 r I E1) as [I1 _].
     apply (IH _ _ _ I1 E2).
 Qed.
 
@@ -243,7 +258,7 @@ Lemma prun_accepted o ps l : o mod 64 = 0 -> prun (NewTailBitmap o) ps = Some l 
   check_history o ps l = true.
 Proof.
   intros D E. unfold check_history.
-  assert (I : Inv o (memP []) (NewTailBitmap o)).
-  { eapply Inv_ext; [|exact (Inv_New o D)]. intros j. rewrite memP_nil. tauto. }
+  assert (I : Inv (true = true) o (memP []) (NewTailBitmap o)).
+  { eapply Inv_ext; [|exact (Inv_New _ o D)]. intros j. rewrite memP_nil. tauto. }
   exact (prun_ok o ps [] _ l I E).
 Qed.
